@@ -29,6 +29,8 @@ Fixpoint lossy (l : list sop) (tr : list tstep) (ia ai : nat) : bool :=
     | SRestartA =>
       (* the initiator's last message of the step is its new Logon *)
       negb (Nat.eqb (ia + (oi - 1)) 0) || lossy l' tr' (Nat.min oi 1) 0
+    | SOverI _ _ => lossy l' tr' (ia + oi) (Nat.pred ai + oa)
+    | SOverA _ _ => lossy l' tr' (Nat.pred ia + oi) (ai + oa)
     | SCfg _ _ => lossy l' tr' oi oa          (* the numbers are forced: what was in flight does not count *)
     | SBad => lossy l' tr' ia ai
     end
